@@ -58,6 +58,16 @@ static size_t forge(uint8_t *out, int what, int64_t arg, const uint8_t ver[2])
 		rng_bytes(&r, out + 5, 64);
 		memset(out + 5 + 64, 0x5a, n - 64);
 		return 5 + n; }
+	case 7: { /* a record of legal but large size, with more bytes of the same flight already queued behind it:
+		   * a receiver that reads the body in pieces must not ask for more than what is left of it */
+		static const size_t body[] = { 9300, 12000, 16384, 17000, 18432 };
+		size_t tail = 3000 + rng_below(&r, 9000);
+		n = body[(uint64_t)arg % 5];
+		out[0] = (arg & 8) ? TLS_record_handshake : TLS_record_application_data;
+		out[1] = ver[0]; out[2] = ver[1]; out[3] = (uint8_t)(n >> 8); out[4] = (uint8_t)n;
+		rng_bytes(&r, out + 5, 64);
+		memset(out + 5 + 64, 0x6b, n - 64 + tail);
+		return 5 + n + tail; }
 	default: /* empty handshake record */
 		out[0] = TLS_record_handshake; out[1] = ver[0]; out[2] = ver[1]; out[3] = 0; out[4] = 0;
 		return 5;
@@ -75,6 +85,13 @@ static void inject_after(Conn *c, int dir, int idx)
 		if (f->kind == F_INJECT) {
 			size_t n = forge(tmp, (int)f->a, f->b, g_lastver[dir]);
 			fire(i, c, dir);
+			if (f->a == 7 && n > 8000) {
+				/* the large record arrives in two pieces: header and the first k body bytes, then the rest
+				 * together with what follows it */
+				size_t k = 5 + 1 + (size_t)((uint64_t)f->b % 6000);
+				net_forward(c, dir, tmp, k);
+				net_forward(c, dir, tmp + k, n - k);
+			} else
 			net_forward(c, dir, tmp, n);
 		} else if (f->kind == F_REPLAY) {
 			int sd = (int)f->a, sr = (int)f->b;
